@@ -390,7 +390,7 @@ pub fn random_elf(r: &mut Rng, rich: bool) -> (ElfSpec, Built) {
             }
             sp.segs.push(g);
         }
-        else if r.chance(1, 3) {
+        else if r.chance(2, 3) {
             // PT_DYNAMIC without any SHT_DYNAMIC section: the entries live in a plain PROGBITS section
             let mut d = Vec::new();
             for _ in 0..r.range(1, 3) { put(&mut d, r.below(40), dynsz as usize / 2, little); put(&mut d, r.edge64(), dynsz as usize / 2, little); }
